@@ -1093,7 +1093,18 @@ class Unit:
         # emit
         owner_name = path
         impl_open = None
-        if owner:
+        asfree = [o.split("=", 1)[1] for o in opts if o.startswith("asfree=")]
+        if owner and asfree:
+            # R6: a trait method is emitted as a free function under another name (Verus refuses `requires` on trait impl methods); `Self` becomes the
+            # implementing type; calls are redirected by an explicit //@rewrite at the call sites
+            ty = owner.split("@", 1)[1] if "@" in owner else owner
+            sig = re.sub(r"\bfn\s+%s\b" % re.escape(name), "fn " + asfree[0], sig, count=1)
+            sig = re.sub(r"\bSelf\b", ty, sig)
+            new_body = re.sub(r"\bSelf\b", ty, new_body)
+            new_body = re.sub(r"\buse self::", "use ", new_body)
+            self.dropped.append("fn %s: emitted as free function `%s` (R6: no `requires` on trait impl methods in Verus)" % (path, asfree[0]))
+            self.counts.add("R6.trait-method-as-free-fn")
+        elif owner:
             if "@" in owner:
                 tr, ty = owner.split("@", 1)
                 impl_open = "impl %s for %s {" % (tr, ty)
